@@ -7,12 +7,12 @@ let () =
   reg_typed "dec" (fun t args -> match args with
     | [strict; h] ->
         res_s (fun (v, rest) -> string_of_val v ^ " " ^ hex_of_bytes rest)
-          (M.dec_slice (strict = "1") (t ()) (bytes_of_hex h))
+          (M.dec_slice (bool_of strict) (t ()) (bytes_of_hex h))
     | _ -> failwith "dec: args");
   (* the six entry points on in-memory input *)
   reg_typed "decm" (fun t args -> match args with
     | [mode; strict; h] ->
-        let c = (strict = "1") and bs = bytes_of_hex h in
+        let c = (bool_of strict) and bs = bytes_of_hex h in
         (match mode with
          | "deserialize" | "deserialize_reader" ->
              res_s (fun (v, rest) -> string_of_val v ^ " " ^ hex_of_bytes rest) (M.dec_slice c (t ()) bs)
